@@ -284,36 +284,93 @@ theorem idxInt_ne_oob {α : Type} (l : List α) (i : Int) (h0 : 0 ≤ i) (h1 : i
   · exact idx_ne_oob (by omega)
 
 theorem expandFinish_of_cases (cases : List (Nat × Int × Int × Int)) (h : ∀ c ∈ cases, CaseSafe c)
-    (streams : List Stream) : expandFinish cases streams ≠ .oob := by
+    (d : DataFlag) (res : List Stream × Bool) : expandFinish cases d res ≠ .oob := by
   unfold expandFinish
+  simp only
   split
   · simp
   · next n sig ctl pkg hf =>
     have hmem := List.mem_of_find?_eq_some hf
-    have hn : n = streams.length := by simpa using List.find?_some hf
+    have hn : n = res.1.length := by simpa using List.find?_some hf
     obtain ⟨s1, c0, c1, p0, p1⟩ := h _ hmem
     simp only at s1 c0 c1 p0 p1
-    refine bind_ne_oob (idxInt_ne_oob _ _ c0 (by omega)) fun _ =>
-      bind_ne_oob (idxInt_ne_oob _ _ p0 (by omega)) fun _ => bind_ne_oob ?_ fun _ => ?_
-    · split
-      · next hs => exact bind_ne_oob (idxInt_ne_oob _ _ hs (by omega)) fun _ => by simp
-      · simp
-    · split
-      · simp
-      · split <;> simp
+    split
+    · simp
+    · refine bind_ne_oob (idxInt_ne_oob _ _ c0 (by omega)) fun _ =>
+        bind_ne_oob (idxInt_ne_oob _ _ p0 (by omega)) fun _ => bind_ne_oob ?_ fun _ => ?_
+      · split
+        · next hs => exact bind_ne_oob (idxInt_ne_oob _ _ hs (by omega)) fun _ => by simp
+        · simp
+      · split
+        · simp
+        · split <;> simp
 
 /-- T: for the regenerated switch, no number of sections makes the index expressions after the loop go
-out of range -/
-theorem expandFinish_no_oob (streams : List Stream) : expandFinish Generated.expandCases streams ≠ .oob :=
-  expandFinish_of_cases _ (by decide) streams
+out of range — whatever the `dataRead` flag says -/
+theorem expandFinish_no_oob (d : DataFlag) (res : List Stream × Bool) :
+    expandFinish Generated.expandCases d res ≠ .oob :=
+  expandFinish_of_cases _ (by decide) d res
 
 /-- a case that assigned `packageIndex = 2` for two sections would panic -/
-theorem expandFinish_bad_case_oob (s : Stream) : expandFinish [(2, -1, 0, 2)] [s, s] = .oob := by
+theorem expandFinish_bad_case_oob (s : Stream) :
+    expandFinish [(2, -1, 0, 2)] ⟨false, false, false⟩ ([s, s], true) = .oob := by
   simp [expandFinish, idxInt, idx, Res.bind]
+
+/-! ### the `dataRead` flag (F05f, repaired): the run ends in an error unless the data section was read -/
+
+theorem tie_expand_dataRead : Generated.expandDataRead =
+    [("init", "dataRead := false"), ("data-branch", "dataRead = true"),
+     ("after-switch", "if !dataRead { return nil, <error> }")] := by decide
+
+theorem expandDataFlag_eq : expandDataFlag = ⟨true, false, true⟩ := by decide
+
+/-- T: with the flag handled as the source does now, a run whose loop was NOT left through the data branch
+(the source ended first) is refused, for every list of sections -/
+theorem expandFinish_refuses_without_data (cases : List (Nat × Int × Int × Int)) (streams : List Stream) :
+    expandFinish cases expandDataFlag (streams, false) = .err := by
+  rw [expandDataFlag_eq]
+  unfold expandFinish
+  simp only
+  split
+  · rfl
+  · simp [DataFlag.value]
+
+/-- the loop leaves through the data branch exactly when its last section is the rest of the stream -/
+theorem expandStep_done_flag (pgs : PrefixList) (st : ExpSt) (ms : List Member) (streams : List Stream)
+    (h : expandStep pgs st ms = .done (.ok (streams, true))) : ∃ init rest, streams = init ++ [.tail rest] := by
+  unfold expandStep at h
+  split at h
+  · simp at h
+  · split at h
+    · simp at h
+    · split at h
+      · simp at h
+      · split at h
+        · split at h <;> simp at h
+        · split at h
+          · simp at h
+          · split at h
+            · simp at h
+            · simp only [Step.done.injEq, Res.ok.injEq, Prod.mk.injEq, and_true] at h
+              exact ⟨_, _, h.symm⟩
+
+/-- the pinned shape (no test after the switch) took "signature + control, then the end of the source" for
+an unsigned package; the repaired shape refuses it -/
+def sigMember : Member := ⟨100, true, true, some ".SIGN.RSA.k.rsa.pub".toList, true, true, true, true⟩
+def ctlMember : Member := ⟨200, true, true, some ".PKGINFO".toList, true, true, true, true⟩
+
+theorem pinned_accepts_signature_control :
+    expandApkG [("hdr.Name", ".SIGN.", "then")] [(3, 0, 1, 2), (2, -1, 0, 1)] ⟨false, false, false⟩
+      [sigMember, ctlMember] = some (.ok (false, 2)) := by decide
+
+theorem repaired_refuses_signature_control :
+    expandApkG [("hdr.Name", ".SIGN.", "then")] [(3, 0, 1, 2), (2, -1, 0, 1)] ⟨true, false, true⟩
+      [sigMember, ctlMember] = some .err := by decide
 
 /-- T: `ExpandApk` on every stream of members: the loop ends and nothing indexes out of range -/
 theorem expandApkG_total (ms : List Member) (hs : ∀ m ∈ ms, 1 ≤ m.size) :
-    ∃ r, expandApkG Generated.prefixGuards_expandNext Generated.expandCases ms = some r ∧ r ≠ .oob := by
+    ∃ r, expandApkG Generated.prefixGuards_expandNext Generated.expandCases expandDataFlag ms = some r ∧
+      r ≠ .oob := by
   unfold expandApkG
   have ht := expandRun_terminates Generated.prefixGuards_expandNext expInit ms hs
   cases hr : expandRun Generated.prefixGuards_expandNext (bytes ms + 1) expInit ms with
@@ -321,7 +378,7 @@ theorem expandApkG_total (ms : List Member) (hs : ∀ m ∈ ms, 1 ≤ m.size) :
   | some r =>
     refine ⟨_, rfl, ?_⟩
     cases r with
-    | ok streams => exact expandFinish_no_oob streams
+    | ok res => exact expandFinish_no_oob _ res
     | err => simp [Res.bind]
     | oob =>
       -- the loop itself has no accessor: it cannot produce `oob`
